@@ -6,18 +6,18 @@ Lemma un_bool_SB : forall b, un_bool (SB b) = Some b.
 Proof. destruct b; reflexivity. Qed.
 
 Lemma side_ok_model : forall fp v,
-  wf v = true -> homogeneous_sortable v = true -> no_pandas v = true ->
+  wf v = true -> no_pandas v = true ->
   side_ok fp v (obs_side (to_hashable fp v)) (obs_stable (to_hashable fp v)) = true.
 Proof.
-  intros fp v Hwf Hhs Hnp. unfold side_ok. destruct (convertible fp v) eqn:Hc; [|reflexivity]. cbn [negb].
-  destruct (total_on_supported fp v Hwf Hhs Hnp Hc) as [k Hk]. rewrite Hk.
+  intros fp v Hwf Hnp. unfold side_ok. destruct (convertible fp v) eqn:Hc; [|reflexivity]. cbn [negb].
+  destruct (total_on_supported fp v Hwf Hnp Hc) as [k Hk]. rewrite Hk.
   assert (Hh := key_hashable fp v k Hwf Hnp Hk).
   unfold obs_side, obs_stable, side_is_ok_hashable. rewrite Hh, !un_bool_SB.
   destruct (has_opaque v); reflexivity.
 Qed.
 
 Definition pair_guard (v : pyval) : bool :=
-  supported v && homogeneous_sortable v && no_pandas v.
+  supported v && no_pandas v.
 
 Theorem spec_ok_pair : forall fp v w,
   pair_guard v = true -> pair_guard w = true -> spec_ok (CPair fp v w) (run (CPair fp v w)) = true.
@@ -126,4 +126,31 @@ Proof.
   - rewrite (eq_implies_key_eq true w v k1 k0); auto.
   - destruct (py_eq k1 k0) eqn:He; [|reflexivity].
     rewrite (key_eq_implies_eq true w v k1 k0) in Hs; auto; discriminate.
+Qed.
+
+(* ---------- DiskCache file names ---------- *)
+Theorem spec_ok_pickle : forall v, spec_ok (CPickle v) (run (CPickle v)) = true.
+Proof.
+  intros v. cbn [spec_ok run]. destruct (negb (supported v && negb (has_opaque v))); [reflexivity|].
+  destruct (to_hashable true v) as [k|e]; [reflexivity|destruct e; reflexivity].
+Qed.
+
+(* ---------- capstone: the executable statement holds of the model's observation for every case kind,
+   outside the one remaining known region (pandas values) ---------- *)
+Definition case_guard (c : case) : bool :=
+  match c with
+  | CPair _ v w => pair_guard v && pair_guard w
+  | CMemo args => forallb pair_guard args
+  | CPickle _ => true
+  | CRekey v w => pair_guard v && pair_guard w
+  end.
+
+Theorem spec_ok_all : forall c, case_guard c = true -> spec_ok c (run c) = true.
+Proof.
+  intros c H. destruct c as [fp v w|args|v|v w]; cbn [case_guard] in H.
+  - apply andb_true_iff in H. destruct H. apply spec_ok_pair; auto.
+  - apply spec_ok_memo. intros a Ha. rewrite forallb_forall in H. specialize (H a Ha).
+    unfold pair_guard in H. apply andb_true_iff in H. exact H.
+  - apply spec_ok_pickle.
+  - apply andb_true_iff in H. destruct H. apply spec_ok_rekey; auto.
 Qed.
